@@ -5,6 +5,7 @@ package main
 import (
 	"go/ast"
 	"go/types"
+	"strings"
 
 	"golang.org/x/tools/go/types/typeutil"
 )
@@ -38,29 +39,59 @@ func (v *Verifier) litPredicate(s *State, fv *Term, arg *Term, pos ast.Node) (re
 	var conds []*Term
 	saveHook := v.obligeHook
 	n0 := len(s.pc)
+	nb0 := len(s.branches)
+	work := s.clone()
 	v.obligeHook = func(st *State, g *Term) {
-		// the obligation holds under the path condition accumulated inside the literal
-		extra := st.pc[min(n0, len(st.pc)):]
-		conds = append(conds, Implies(And(extra...), g))
+		// the obligation must hold under the branch conditions taken inside the literal
+		br := st.branches[min(nb0, len(st.branches)):]
+		conds = append(conds, v.substDefs(Implies(And(br...), g), st.pc[min(n0, len(st.pc)):]))
 	}
 	v.inQuant++
-	work := s.clone()
-	rs := v.inlineLit(work, li.lit, li.pkg, []*Term{arg}, pos.Pos())
+	sig := li.pkg.TypesInfo.TypeOf(li.lit).(*types.Signature)
+	pop := v.pushCtx(li.pkg, v.fc, sigResults(sig), li.lit.Body)
+	v.scanBoxed(li.lit.Body, li.pkg.TypesInfo)
+	if len(li.lit.Type.Params.List) > 0 && len(li.lit.Type.Params.List[0].Names) > 0 {
+		if o := li.pkg.TypesInfo.Defs[li.lit.Type.Params.List[0].Names[0]]; o != nil {
+			v.declareVar(work, o, arg)
+		}
+	}
+	flows := v.execBlock(work, li.lit.Body.List)
+	pop()
 	v.inQuant--
 	v.obligeHook = saveHook
-	if len(rs) != 1 {
-		unsupported("predicate literal with %d results", len(rs))
+	// the value is an ite-chain over the return paths, guarded by their branch conditions
+	var val *Term
+	for i := len(flows) - 1; i >= 0; i-- {
+		f := flows[i]
+		if f.St.dead || f.Kind != flowReturn || len(f.Ret) != 1 {
+			if f.St.dead {
+				continue
+			}
+			unsupported("predicate literal with unsupported control flow")
+		}
+		defs := f.St.pc[min(n0, len(f.St.pc)):]
+		g := v.substDefs(And(f.St.branches[min(nb0, len(f.St.branches)):]...), defs)
+		r := v.substDefs(f.Ret[0], defs)
+		if val == nil {
+			val = r
+		} else {
+			val = Ite(g, r, val)
+		}
 	}
-	// definitions introduced while evaluating (named intermediate values)
-	extra := work.pc[min(n0, len(work.pc)):]
-	return v.substDefs(rs[0], extra), And(conds...)
+	if val == nil {
+		unsupported("predicate literal without a return path")
+	}
+	return val, And(conds...)
 }
 
 // substDefs inlines the equations c = t that name intermediate values.
 func (v *Verifier) substDefs(t *Term, defs []*Term) *Term {
 	m := map[string]*Term{}
 	for _, d := range defs {
-		if d.Op == "=" && len(d.Args) == 2 && len(d.Args[0].Args) == 0 && !d.Args[0].IsLit {
+		for d.Op == "=>" && len(d.Args) == 2 {
+			d = d.Args[1] // definitions of fresh constants recorded under a path guard
+		}
+		if d.Op == "=" && len(d.Args) == 2 && len(d.Args[0].Args) == 0 && !d.Args[0].IsLit && strings.Contains(d.Args[0].Op, "!") {
 			m[d.Args[0].Op] = d.Args[1]
 		}
 	}
